@@ -63,6 +63,27 @@ def tests_of_calls(f, calls, family=None, enum_success=None, awaited=None):
     return tests
 
 
+def tree_with_helpers(F, f, depth=2):
+    """The closure tree of `f` plus the trees of the private same-file workspace functions it
+    calls (transitively to `depth`): where a maintainer may have moved part of the logic."""
+    from .inline import _callee, default_select
+    out, seen, work = [], set(), [(f, 0)]
+    while work:
+        g, d = work.pop()
+        for h in F.tree(g):
+            if h.path in seen:
+                continue
+            seen.add(h.path)
+            out.append(h)
+            if d >= depth:
+                continue
+            for b, t in h.calls():
+                c = _callee(F, h, t)
+                if c is not None and c.path not in seen and c.crate == f.crate and c.file == f.file and c.vis != "pub" and not c.derived:
+                    work.append((c, d + 1))
+    return out
+
+
 def private_fields(F, rep, adt_path, why):
     """Type-level fact (replaces a compile-fail witness): no field of the ADT is nameable
     outside its defining crate, so code outside cannot build or alter a value by literal /
@@ -577,6 +598,24 @@ def cmp_tests(f, ops=("Gt", "Ge", "Lt", "Le", "Eq", "Ne"), pred=None):
     return out
 
 
+def presence_tests(f, field):
+    """Tests of `self.<field>` (an Option) being Some, in any accepted idiom: `.is_some()`,
+    `.is_none()` (polarity swapped), or a match / if-let on the field's discriminant.
+    Success edges = the field is Some.  Returns (tests, sites)."""
+    out, sites = [], []
+    for b, t in f.calls():
+        if call_matches(t, r"^core::option::Option::(is_some|is_none)$") and t["args"] and recv_field(f, t["args"][0]) == field:
+            ts, _ = call_result_tests(f, b, family="bool")
+            if callee_names(t)[0].endswith("is_none"):
+                ts = [Test(x.bb, x.failure, x.success, x.level, x.family, not x.neg, x.local) for x in ts]
+            out += ts
+            sites.append(b)
+    for t_ in field_tests(f, field):
+        out.append(t_)
+        sites.append(t_.bb)
+    return out, sites
+
+
 def emptiness_tests(f, field):
     """Tests of `self.<field>` being empty, in any of the accepted idioms: `.is_empty()`,
     `.len() == 0`, `.len() != 0`, `.len() > 0`, `0 < .len()`, `.len() < 1` ...; success
@@ -741,34 +780,31 @@ def nonzero_guard(f, bb, divisor_op):
                 if is_call_to(t, "core::cmp::Ord::max", "core::cmp::max") and t["dest"]["l"] in du.closure(l) | {l}:
                     if any(_nonzero_const(a) for a in t["args"]):
                         return True, "max(_, non-zero literal)"
-    # comparisons with zero on the same value
+    # comparisons of the same (unsigned) value with a constant: which edge implies x >= 1
+    def small_const(o):
+        if o["k"] != "const":
+            return None
+        m = re.match(r"^(?:const )?(\d+)_u", str(o.get("v")))
+        return int(m.group(1)) if m else None
+    MIRROR = {"Gt": "Lt", "Lt": "Gt", "Ge": "Le", "Le": "Ge", "Eq": "Eq", "Ne": "Ne"}
     for cb, s, ts in cmp_tests(f, ops=("Eq", "Ne", "Gt", "Lt", "Ge", "Le")):
         a, b2 = s["rv"]["a"], s["rv"]["b"]
         op = s["rv"]["op"]
-        val = None
-        if _is_zero_const(b2) and a["k"] != "const":
-            val, zero_right = a, True
-        elif _is_zero_const(a) and b2["k"] != "const":
-            val, zero_right = b2, False
+        if small_const(b2) is not None and a["k"] != "const":
+            val, c = a, small_const(b2)
+        elif small_const(a) is not None and b2["k"] != "const":
+            val, c, op = b2, small_const(a), MIRROR[op]
         else:
             continue
         if copy_sources(f, op_base(val)) != src:
             continue
-        # which edge means non-zero (unsigned operands)
-        if op == "Eq":
-            nz_is_true = False
-        elif op == "Ne":
-            nz_is_true = True
-        elif (op == "Gt" and zero_right) or (op == "Lt" and not zero_right):
-            nz_is_true = True
-        elif (op == "Le" and zero_right) or (op == "Ge" and not zero_right):
-            nz_is_true = False
-        else:
-            continue
-        if nz_is_true and requires(f, bb, ts):
-            return True, "guarded by `%s 0` test" % op
-        if not nz_is_true and requires_failure(f, bb, ts):
-            return True, "guarded by the false edge of `%s 0` test" % op
+        # now the test reads `x <op> c`
+        true_nz = (op == "Eq" and c >= 1) or op == "Gt" or (op == "Ge" and c >= 1)
+        false_nz = (op == "Ne" and c >= 1) or (op == "Lt" and c >= 1) or op == "Le" or (op == "Eq" and c == 0)
+        if true_nz and requires(f, bb, ts):
+            return True, "guarded by `x %s %d`" % (op, c)
+        if false_nz and requires_failure(f, bb, ts):
+            return True, "guarded by the false edge of `x %s %d`" % (op, c)
     return False, "divisor %s has no non-zero proof (sources %s)" % ("_%d" % l, sorted(map(str, src)))
 
 
